@@ -22,7 +22,7 @@ Not decided: equality of the values after a round trip (needs the run-time conte
 import os
 import re
 
-from rkstatic.x_linform import Poly, Evaluator, implies_le, negate, show, show_rel
+from rkstatic.x_linform import Poly, Evaluator, implies_le, negate, show, show_rel, relation, upper_bound, lower_bound
 
 LEVEL = 'other'
 EXPLANATION = (
@@ -47,6 +47,10 @@ class Undecided(Exception):
     pass
 
 
+UNSIGNED = {'unsigned long': 2 ** 64 - 1, 'unsigned long long': 2 ** 64 - 1, 'unsigned int': 2 ** 32 - 1,
+            'const unsigned long': 2 ** 64 - 1, 'const unsigned int': 2 ** 32 - 1}
+
+
 def short(q):
     return q.replace(NET, '').replace(UTIL, '')
 
@@ -67,6 +71,9 @@ class St:
         self.events = []                # (kind, ...) in order
         self.trace = []                 # block ids
         self.callvals = {}              # call node id -> value returned by an inlined helper
+        self.subs = {}                  # node id -> (a, b, text) of every unsigned subtraction a - b evaluated so far
+        self.inv = []                   # Polys F with F <= 0 known at entry (class invariant: cursor <= capacity)
+        self.wrap = []                  # notes: unsigned subtractions that wrap on this path
 
     def copy(self):
         s = St(self.fields, self.bufsize)
@@ -77,6 +84,9 @@ class St:
         s.events = list(self.events)
         s.trace = list(self.trace)
         s.callvals = dict(self.callvals)
+        s.subs = dict(self.subs)
+        s.inv = list(self.inv)
+        s.wrap = list(self.wrap)
         return s
 
 
@@ -92,6 +102,8 @@ class BufEngine:
         self.f = f
         self.depth = depth
         self.params = {p['id']: p for p in f.get('params', [])}
+        self.signed = {p['name'] for p in f.get('params', []) if p['ct'].replace('const ', '') not in UNSIGNED
+                       and not p['ct'].rstrip().endswith('*') and not p['ct'].rstrip().endswith('&')}
         self.buf_obj_alias = set()      # parameters bound to the buffer array itself (helper called with *buffer)
         self.buf_sp_alias = set()       # parameters bound to the shared_ptr holding it
         rec = tu.records.get(f.get('recid'))
@@ -176,7 +188,125 @@ class BufEngine:
             v = self.call_value(n, st)
             return v if isinstance(v, Poly) else None
 
-        return Evaluator(tu, var, member, call)
+        def on_sub(n, a, b):
+            if tu.sd(n).get('ct', '') in UNSIGNED:
+                st.subs[n['id']] = (a, b, tu.show(n), UNSIGNED[tu.sd(n)['ct']])
+
+        return Evaluator(tu, var, member, call, on_sub=on_sub)
+
+    # ---- unsigned arithmetic: a - b is the integer a - b only if b <= a
+    def facts(self, st):
+        return list(st.inv) + [p for p, op in st.cons if op == '<=']
+
+    def bounded_atoms(self, poly):
+        """all atoms are unsigned quantities (members, buffer size, unsigned parameters)"""
+        for a in poly.atoms():
+            if isinstance(a, tuple) and a[0] == 'param' and a[1] in self.signed:
+                return False
+        return True
+
+    def subs_in(self, e, st, seen=None, depth=0):
+        """unsigned subtractions that feed expression e (through local variables)"""
+        tu = self.tu
+        out = []
+        seen = set() if seen is None else seen
+        if e is None or depth > 6:
+            return out
+        for x in tu.walk(e):
+            if x.get('id') in st.subs and x['id'] not in seen:
+                seen.add(x['id'])
+                out.append((x['id'],) + st.subs[x['id']])
+            if x.get('kind') == 'DeclRefExpr':
+                vd = tu.node(x.get('referencedDecl', {}).get('id'))
+                if vd is not None and vd.get('kind') == 'VarDecl' and tu.kids(vd) and vd['id'] not in seen:
+                    seen.add(vd['id'])
+                    out += self.subs_in(tu.kids(vd)[0], st, seen, depth + 1)
+            if x.get('kind') == 'CXXMemberCallExpr' and tu.callee_fn(x) is not None and \
+                    tu.callee_fn(x).get('rec') == self.f.get('rec') and tu.callee_fn(x)['id'] not in seen and depth < 3:
+                seen.add(tu.callee_fn(x)['id'])
+                b = tu.body(tu.callee_fn(x))
+                if b is not None:
+                    # a const member evaluated in place (available()): its subtractions were recorded when it ran
+                    pass
+        return out
+
+    def branch_states(self, c, st):
+        """-> [(edge index, state)] for a two-way branch on condition c, with unsigned wrap-around cases split off"""
+        tu = self.tu
+        ev = self.evaluator(st)
+        rel = ev.rel(c) if c is not None else None
+        res = []
+
+        def plain(base, rel_):
+            out = []
+            for idx in (0, 1):
+                s2 = base.copy()
+                if rel_ is None:
+                    s2.opaque.append(('%s' if idx == 0 else '!(%s)') % tu.show(c))
+                elif idx == 0:
+                    s2.cons.extend(rel_)
+                elif len(rel_) == 1:
+                    s2.cons.append(negate(rel_[0]))
+                else:
+                    s2.opaque.append('!(%s)' % tu.show(c))
+                out.append((idx, s2))
+            return out
+
+        unproven = []
+        for nid, a, b, text, hi in (self.subs_in(c, st) if c is not None else []):
+            d = b - a
+            ub = upper_bound(d, self.facts(st), hi) if self.bounded_atoms(d) else None
+            if ub is None or ub > 0:
+                unproven.append((nid, a, b, text, hi))
+        if not unproven:
+            return plain(st, rel)
+        neg = False
+        cc = c
+        while cc is not None and cc.get('kind') == 'UnaryOperator' and cc.get('opcode') == '!':
+            neg = not neg
+            cc = tu.strip(tu.kids(cc)[0])
+        if len(unproven) == 1 and cc is not None and cc.get('kind') == 'BinaryOperator' and \
+                cc.get('opcode') in ('<', '>', '<=', '>=', '==', '!='):
+            nid, a, b, text, hi = unproven[0]
+            l, r = tu.kids(cc)
+            lp, rp = ev.ev(l), ev.ev(r)
+            d = a - b
+            if lp is not None and rp is not None and (lp == d) != (rp == d) and self.bounded_atoms(lp + rp):
+                # case 1: b <= a, the subtraction is the integer difference
+                s1 = st.copy()
+                s1.cons.append((b - a, '<='))
+                res += plain(s1, rel)
+                # case 2: b > a, the unsigned result is a - b + 2^N
+                s2 = st.copy()
+                s2.cons.append((a - b + 1, '<='))
+                M = hi + 1
+                lw, rw = (lp + M, rp) if lp == d else (lp, rp + M)
+                P, op = relation(lw, cc['opcode'], rw, neg)
+                fs = self.facts(s2)
+                ub, lb = upper_bound(P, fs, hi), lower_bound(P, fs, hi)
+                truth = None
+                if op == '<=':
+                    truth = True if (ub is not None and ub <= 0) else False if (lb is not None and lb >= 1) else None
+                elif (ub is not None and ub < 0) or (lb is not None and lb > 0):
+                    truth = (op == '!=')
+                note = 'for `%s` > `%s` the unsigned subtraction `%s` wraps around to a huge value, so `%s` is %s' % (
+                    show(b), show(a), text, tu.show(c), {True: 'always true', False: 'always false', None: 'undetermined'}[truth])
+                s2.wrap.append(note)
+                if truth is None:
+                    for idx in (0, 1):
+                        s3 = s2.copy()
+                        s3.opaque.append(note)
+                        res.append((idx, s3))
+                else:
+                    res.append((0 if truth else 1, s2))
+                return res
+        # a possibly wrapping subtraction in a position that is not modelled: no integer reading of the condition
+        out = []
+        for idx in (0, 1):
+            s2 = st.copy()
+            s2.opaque.append('%s (unsigned subtraction `%s` may wrap)' % (('%s' if idx == 0 else '!(%s)') % tu.show(c), unproven[0][3]))
+            out.append((idx, s2))
+        return out
 
     def call_value(self, n, st):
         tu = self.tu
@@ -438,6 +568,7 @@ class BufEngine:
         sd, obj, args = tu.call_parts(n)
         sub = BufEngine(tu, callee, self.depth + 1)
         sub.buf_field = self.buf_field if callee.get('rec') == self.f.get('rec') else None
+        sub.signed = self.signed
         s0 = st.copy()
         s0.vars = {}
         s0.trace = []
@@ -461,6 +592,7 @@ class BufEngine:
             r.events = [e for i, e in enumerate(s2.events) if i < n_ev or e[0] not in ('return', 'retptr')]
             r.callvals = dict(st.callvals)
             r.callvals.update({k: v for k, v in s2.callvals.items()})
+            r.subs, r.wrap = dict(s2.subs), list(s2.wrap)
             if kind == 'throw':
                 outs.append(('throw', r))
             else:
@@ -554,19 +686,10 @@ class BufEngine:
                 c = tu.strip(tu.node(blk.cond))
                 while c is not None and c.get('kind') == 'BinaryOperator' and c.get('opcode') in ('&&', '||'):
                     c = tu.strip(tu.kids(c)[1])
-                rel = self.evaluator(st).rel(c) if c is not None else None
-                for idx, s in enumerate(succ):
+                for idx, s2 in self.branch_states(c, st):
+                    s = succ[idx]
                     if s is None:
                         continue
-                    s2 = st.copy()
-                    if rel is None:
-                        s2.opaque.append(('%s' if idx == 0 else '!(%s)') % tu.show(c))
-                    elif idx == 0:
-                        s2.cons.extend(rel)
-                    elif len(rel) == 1:
-                        s2.cons.append(negate(rel[0]))
-                    else:
-                        s2.opaque.append('!(%s)' % tu.show(c))
                     if s == g.exit:
                         outs.append(('end', s2, None))
                     else:
@@ -621,6 +744,15 @@ def check_access(ctx, tu, f, st, ev, rule, inst, keybase, what):
                       'call' % (what, show(off), show(off + ln), show(bufsize), c), tu.loc(nid),
                       key='%s|%s|overflow' % (rule, keybase), path=path_text(tu, g, st))
         return False
+    if st.wrap:
+        hi = 2 ** 64 - 1
+        lb = lower_bound(need, list(st.inv) + [p_ for p_, op_ in st.cons if op_ == '<='], hi)
+        if lb is not None and lb >= 1:
+            ctx.violation(rule, inst, '%s of [%s, %s) is reached although it ends beyond the buffer (%s >= %d): %s; the bounds test '
+                          'is evaluated in unsigned arithmetic and accepts the request'
+                          % (what, show(off), show(off + ln), show(need), lb, st.wrap[0]), tu.loc(nid),
+                          key='%s|%s|overflow' % (rule, keybase), path=path_text(tu, g, st))
+            return False
     verdict, d, con = implies_le(st.cons, need)
     if verdict == 'exact':
         return True
@@ -672,6 +804,8 @@ def check_transfer_fn(ctx, tu, f, mode):
     c0 = Poly.atom(('field', cursor_name + '0'))
     cap = Poly.atom(('sym', 'capacity'))
     st0 = St({cursor_name: c0} if has_cursor else {}, cap)
+    if has_cursor and mode != 'count':
+        st0.inv = [c0 - cap]      # class invariant established by this very rule: 0 <= cursor <= buffer size
     eng = BufEngine(tu, f)
     if mode != 'count' and eng.buf_field is None:
         ctx.broken('%s: buffer member of %s not found' % (R1, f.get('rec')))
@@ -839,7 +973,9 @@ def check_accessors(ctx, tu):
             return None, None
         f = fs[0]
         try:
-            outs = BufEngine(tu, f).run(St({'cursor': c0}, cap))
+            s0 = St({'cursor': c0}, cap)
+            s0.inv = [c0 - cap]
+            outs = BufEngine(tu, f).run(s0)
         except Undecided as u:
             ctx.undecided(R, short(q), str(u), tu.fn_loc(f))
             return f, None
@@ -1114,6 +1250,8 @@ def subst_items(items, root):
             out.append(('REPEAT', subst_poly(it[1], root), subst_path(it[2], root), subst_items(it[3], root), it[4]))
         elif k == 'COUNT':
             out.append(('COUNT', subst_poly(it[1], root), it[2]))
+        elif k == 'IF':
+            out.append(('IF', [(subst_poly(p_, root), op) for p_, op in it[1]], subst_items(it[2], root), subst_items(it[3], root), it[4]))
     return out
 
 
@@ -1133,6 +1271,8 @@ def show_items(items):
             out.append('REPEAT(%s,[%s])' % (show(it[1]), ' '.join(show_items(it[3]))))
         elif k == 'COUNT':
             out.append('COUNT(%s)' % show(it[1]))
+        elif k == 'IF':
+            out.append('IF(%s,[%s],[%s])' % (' && '.join(show_rel(c) for c in it[1]), ' '.join(show_items(it[2])), ' '.join(show_items(it[3]))))
     return out
 
 
@@ -1256,6 +1396,19 @@ class SigBuilder:
             env2['vars'][p['id']] = v
         items = pre + self.block(tu.body(callee), env2)
         return items, env2['retval']
+
+    def cond_rel(self, e, env):
+        """normal form [(Poly, op)] of a branch condition over the lengths known so far"""
+        tu = self.tu
+
+        def var(n, did):
+            v = env['vars'].get(did)
+            return v if isinstance(v, Poly) else None
+
+        def call(n):
+            return self.length(n, env)
+
+        return Evaluator(tu, var, None, call).rel(e)
 
     def length(self, e, env, sink=None):
         tu = self.tu
@@ -1458,6 +1611,19 @@ class SigBuilder:
             env2['index'] = (iv['id'], base)
             sub = self.block(body, env2)
             return [('REPEAT', count, base, sub, tu.loc(n))]
+        if k == 'IfStmt':
+            ks = [c for c in n.get('inner', ()) if isinstance(c, dict) and c.get('kind')]
+            if len(ks) not in (2, 3) or n.get('hasInit') or n.get('hasVar'):
+                raise Undecided('if statement shape')
+            rel = self.cond_rel(ks[0], env)
+            if rel is None or len(rel) != 1:
+                raise Undecided('condition `%s` has no normal form' % tu.show(ks[0]))
+            venv = dict(env['vars'])
+            then_items = self.block(ks[1], env)
+            else_items = self.block(ks[2], env) if len(ks) == 3 else []
+            if any(it[0] == 'FIELD' and it[3] is not None for it in then_items + else_items):
+                raise Undecided('a length is read inside a conditional branch')
+            return [('IF', rel, then_items, else_items, tu.loc(n))]
         if k == 'CallExpr' and self.helper_callee(n, env) is not None:
             return self.inline_helper(n, env, self.helper_callee(n, env))[0]
         if k in ('CXXOperatorCallExpr', 'CXXMemberCallExpr', 'ExprWithCleanups'):
@@ -1587,6 +1753,12 @@ def total_bytes(items):
             tot = tot + it[1] * sub
         elif k == 'RESIZE':
             pass
+        elif k == 'IF':
+            a, b = total_bytes(it[2]), total_bytes(it[3])
+            if isinstance(a, Poly) and isinstance(b, Poly) and a == b:
+                tot = tot + a
+            else:
+                return ('var', 'the byte count depends on the branch `%s`' % ' && '.join(show_rel(c) for c in it[1]))
     return tot
 
 
@@ -1600,6 +1772,8 @@ def flatten(items):
                 out.append(('DATA', it[2], it[1] * sub[0][2], sub[0][2], it[4]))
             else:
                 out.append(('REPEAT', it[1], it[2], sub, it[4]))
+        elif it[0] == 'IF':
+            out.append(('IF', it[1], flatten(it[2]), flatten(it[3]), it[4]))
         else:
             out.append(it)
     return out
@@ -1618,6 +1792,9 @@ def self_check_writer(items, problems, sizes=None):
                 problems.append(('repeat-count', 'writes %s elements of `%s`, which holds %s' %
                                  (show(it[1]), show_path(it[2]), show(Poly.atom(('size', it[2])))), it[4]))
             self_check_writer(it[3], problems)
+        elif it[0] == 'IF':
+            self_check_writer(it[2], problems)
+            self_check_writer(it[3], problems)
 
 
 def pair_same(A, B, problems):
@@ -1627,6 +1804,8 @@ def pair_same(A, B, problems):
         for it in items:
             if it[0] == 'REPEAT':
                 out.append(('REPEAT', it[1], it[2], norm(it[3])))
+            elif it[0] == 'IF':
+                out.append(('IF', tuple(it[1]), tuple(norm(it[2])), tuple(norm(it[3]))))
             elif it[0] == 'FIELD':
                 out.append(('FIELD', it[1], it[2]))
             elif it[0] in ('RAW', 'DATA'):
@@ -1638,28 +1817,108 @@ def pair_same(A, B, problems):
         problems.append('%s vs %s' % (' '.join(show_items(A)), ' '.join(show_items(B))))
 
 
-def pair(W, R, problems, bind=None, sizes=None):
-    """pair writer items with reader items; problems: [(kind, text, loc)]"""
-    bind = {} if bind is None else bind          # reader variable atom -> writer value
-    sizes = {} if sizes is None else sizes       # reader container path -> element count (in writer terms)
+def cases(items):
+    """expand IF items of one level: [(assumptions [(Poly, op)], items without IF)]"""
+    res = [([], [])]
+    for it in items:
+        if it[0] == 'IF':
+            new = []
+            for a, l in res:
+                for ca, cl in cases(it[2]):
+                    new.append((a + list(it[1]) + ca, l + cl))
+                for ca, cl in cases(it[3]):
+                    new.append((a + [negate(it[1][0])] + ca, l + cl))
+            res = new
+        else:
+            res = [(a, l + [it]) for a, l in res]
+    return res
 
+
+def zero_atoms(assume):
+    """atoms (sizes / lengths, all non-negative) that the assumptions force to 0"""
+    z = set()
+    for p, op in assume:
+        if op in ('<=', '==') and len(p.t) == 1:
+            (mon, c), = p.t.items()
+            if len(mon) == 1 and c > 0:
+                z.add(mon[0])
+    return z
+
+
+def contradictory(assume):
+    for a in assume:
+        for b in assume:
+            if a[1] == '<=' and b[1] == '<=' and (a[0] + b[0]).const_value() is not None and (a[0] + b[0]).const_value() >= 1:
+                return True
+            if a[1] == '==' and b[1] == '!=' and a[0] == b[0]:
+                return True
+    return False
+
+
+def pair(W, R, problems, bind=None, sizes=None, aw=(), ar=()):
+    """pair writer items with reader items, once per combination of the conditional branches on both sides;
+    problems: [(kind, text, loc)]"""
+    bind = {} if bind is None else bind
+    sizes = {} if sizes is None else sizes
+    for wa, wl in cases(flatten(W)):
+        for ra, rl in cases(flatten(R)):
+            local = []
+            b, sz = dict(bind), dict(sizes)
+            aw2, ar2 = list(aw) + wa, list(ar) + ra
+            _pair_flat(wl, rl, local, b, sz, aw2, ar2)
+            if not local:
+                continue
+            allc = list(aw2)
+            for p_, op in ar2:
+                for a, v in b.items():
+                    if v is not None:
+                        p_ = p_.subst(a, v)
+                allc.append((p_, op))
+            if contradictory(allc):
+                continue          # this combination of branches cannot occur for one stream
+            problems.extend(local)
+            return
+
+
+def _pair_flat(W, R, problems, bind, sizes, aw, ar):
     def rsub(p):
         for a, v in bind.items():
-            p = p.subst(a, v)
+            if v is not None:
+                p = p.subst(a, v)
         return p
 
-    W = flatten(W)
-    R = flatten(R)
+    def norm(p):
+        """value of p under the branch assumptions (lengths that are known to be 0)"""
+        z = zero_atoms(list(aw) + [(rsub(q), op) for q, op in ar])
+        for a in z:
+            p = p.subst(a, Poly.const(0))
+        return p
+
+    def cond_text():
+        cs = list(aw) + [(rsub(q), op) for q, op in ar]
+        return (' on the path where ' + ' && '.join(show_rel(c) for c in cs)) if cs else ''
+
+    emptied = []          # containers the writer emitted with length 0 and the reader did not visit
     i = j = 0
     while True:
         while j < len(R) and R[j][0] == 'RESIZE':
             sizes[R[j][1]] = rsub(R[j][2])
             j += 1
+        # a block / repeat of length 0 is not on the wire
+        if i < len(W) and W[i][0] in ('DATA', 'REPEAT') and norm(W[i][2] if W[i][0] == 'DATA' else W[i][1]) == Poly.const(0) and \
+                not (j < len(R) and R[j][0] == W[i][0]):
+            emptied.append((W[i][1] if W[i][0] == 'DATA' else W[i][2], W[i][-1]))
+            i += 1
+            continue
+        if j < len(R) and R[j][0] in ('DATA', 'REPEAT') and norm(rsub(R[j][2] if R[j][0] == 'DATA' else R[j][1])) == Poly.const(0) and \
+                not (i < len(W) and W[i][0] == R[j][0]):
+            j += 1
+            continue
         if i >= len(W) or j >= len(R):
             break
         w, r = W[i], R[j]
         if w[0] != r[0]:
-            problems.append(('shape', 'writer emits %s where the reader expects %s' % (show_items([w])[0], show_items([r])[0]),
+            problems.append(('shape', 'writer emits %s where the reader expects %s%s' % (show_items([w])[0], show_items([r])[0], cond_text()),
                              r[-1] if isinstance(r[-1], str) else '?'))
             return
         if w[0] == 'FIELD':
@@ -1679,21 +1938,21 @@ def pair(W, R, problems, bind=None, sizes=None):
             if w[1] != r[1]:
                 problems.append(('shape', 'data block of `%s` is read into `%s`' % (show_path(w[1]), show_path(r[1])), r[4]))
                 return
-            if rl != w[2]:
-                problems.append(('data-length', 'the writer emits %s bytes for `%s` but the reader consumes %s'
-                                 % (show(w[2]), show_path(w[1]), show(rl)), r[4]))
+            if norm(rl) != norm(w[2]):
+                problems.append(('data-length', 'the writer emits %s bytes for `%s` but the reader consumes %s%s'
+                                 % (show(w[2]), show_path(w[1]), show(rl), cond_text()), r[4]))
                 return
             if have is None:
-                problems.append(('no-resize', 'the reader stores %s bytes into `%s` without sizing it first'
-                                 % (show(rl), show_path(r[1])), r[4]))
+                problems.append(('no-resize', 'the reader stores %s bytes into `%s` without sizing it first%s'
+                                 % (show(rl), show_path(r[1]), cond_text()), r[4]))
                 return
-            if have * r[3] != rl:
-                problems.append(('dest-size', 'the reader stores %s bytes into `%s`, which was sized to %s bytes'
-                                 % (show(rl), show_path(r[1]), show(have * r[3])), r[4]))
+            if norm(have * r[3]) != norm(rl):
+                problems.append(('dest-size', 'the reader stores %s bytes into `%s`, which was sized to %s bytes%s'
+                                 % (show(rl), show_path(r[1]), show(have * r[3]), cond_text()), r[4]))
                 return
-            if have != Poly.atom(('size', w[1])):
-                problems.append(('dest-size', 'the reader sizes `%s` to %s elements, the writer had %s'
-                                 % (show_path(r[1]), show(have), show(Poly.atom(('size', w[1])))), r[4]))
+            if norm(have) != norm(Poly.atom(('size', w[1]))):
+                problems.append(('dest-size', 'the reader sizes `%s` to %s elements, the writer had %s%s'
+                                 % (show_path(r[1]), show(have), show(Poly.atom(('size', w[1]))), cond_text()), r[4]))
                 return
         elif w[0] == 'REPEAT':
             rc = rsub(r[1])
@@ -1701,26 +1960,44 @@ def pair(W, R, problems, bind=None, sizes=None):
             if w[2] != r[2]:
                 problems.append(('shape', 'elements of `%s` are read into `%s`' % (show_path(w[2]), show_path(r[2])), r[4]))
                 return
-            if rc != w[1]:
-                problems.append(('repeat-count', 'the writer emits %s elements, the reader consumes %s' % (show(w[1]), show(rc)), r[4]))
+            if norm(rc) != norm(w[1]):
+                problems.append(('repeat-count', 'the writer emits %s elements, the reader consumes %s%s' % (show(w[1]), show(rc), cond_text()),
+                                 r[4]))
                 return
-            if have is None or have != rc:
+            if have is None or norm(have) != norm(rc):
                 problems.append(('no-resize' if have is None else 'dest-size',
-                                 'the reader stores %s elements into `%s`, which %s' %
-                                 (show(rc), show_path(r[2]), 'was never sized' if have is None else 'was sized to ' + show(have)), r[4]))
+                                 'the reader stores %s elements into `%s`, which %s%s' %
+                                 (show(rc), show_path(r[2]), 'was never sized' if have is None else 'was sized to ' + show(have),
+                                  cond_text()), r[4]))
                 return
             n0 = len(problems)
-            pair(w[3], r[3], problems, dict(bind), dict(sizes))
+            pair(w[3], r[3], problems, dict(bind), dict(sizes), aw, [(rsub(q), op) for q, op in ar])
             if len(problems) > n0:
                 return
         i += 1
         j += 1
     while j < len(R) and R[j][0] == 'RESIZE':
+        sizes[R[j][1]] = rsub(R[j][2])
         j += 1
     if i < len(W) or j < len(R):
         rest = show_items(W[i:]) if i < len(W) else show_items(R[j:])
-        problems.append(('shape', 'the %s has the additional item(s) %s' % ('writer' if i < len(W) else 'reader', ' '.join(rest)),
+        problems.append(('shape', 'the %s has the additional item(s) %s%s' % ('writer' if i < len(W) else 'reader', ' '.join(rest),
+                                                                             cond_text()),
                          (W[i] if i < len(W) else R[j])[-1] if isinstance((W[i] if i < len(W) else R[j])[-1], str) else '?'))
+        return
+    # the destination of a container that was written empty must still be given length 0: otherwise a destination that is
+    # reused (record loops, elements kept by vector::resize) keeps its previous contents
+    for path, loc in emptied:
+        have = sizes.get(path)
+        if have is None:
+            problems.append(('no-resize', 'the reader returns without setting the size of `%s`%s: the destination keeps its '
+                             'previous contents, so an empty %s is read back as the old value'
+                             % (show_path(path), cond_text(), 'string / container'), loc))
+            return
+        if norm(have) != Poly.const(0):
+            problems.append(('dest-size', 'the reader sizes `%s` to %s although the length read is 0%s'
+                             % (show_path(path), show(have), cond_text()), loc))
+            return
 
 
 WRAP_RX = re.compile(r'^rkcommon::utility::(AbstractArray|ArrayView|OwnedArray|FixedArray|FixedArrayView)<(.+)>$')
@@ -1743,6 +2020,9 @@ def all_raw(items, out):
             out.append(it)
         elif it[0] == 'REPEAT':
             all_raw(it[3], out)
+        elif it[0] == 'IF':
+            all_raw(it[2], out)
+            all_raw(it[3], out)
 
 
 def check_signatures(ctx, tu):
@@ -1753,6 +2033,7 @@ def check_signatures(ctx, tu):
                  'static type')
     sb = SigBuilder(tu)
     writers, readers, calcs = {}, {}, {}
+    unshaped = set()      # operand types whose operator exists but could not be abstracted (reported as undecided)
     nprobe = 0
     for f in sorted(tu.functions.values(), key=lambda x: (x['f'], x['l'])):
         if not f['q'].startswith(PROBE_NS) or tu.body(f) is None or f.get('rec'):
@@ -1775,6 +2056,7 @@ def check_signatures(ctx, tu):
             d, items = sb.sig(callee)
         except Undecided as u:
             ctx.undecided(R2, '%s for %s' % (pattern_sig(tu, callee), ty), str(u), tu.fn_loc(callee))
+            unshaped.add(ty)
             continue
         stream_ty = bare_type(f['params'][0]['ct']) if f.get('params') else ''
         if stream_ty == NET + 'WriteSizeCalculator':
@@ -1829,7 +2111,11 @@ def check_signatures(ctx, tu):
             rty = ty
         r = readers.get(rty)
         if r is None:
-            ctx.broken('%s: no reader probe for `%s` (needed to pair the writer of `%s`)' % (R2, rty, ty))
+            if rty in unshaped or any(rty in u or u in rty for u in unshaped):
+                ctx.undecided(R2, 'write %s / read %s' % (ty, rty), 'the reader of `%s` exists but its shape is not understood '
+                              '(see above)' % rty, tu.fn_loc(w[0]))
+            else:
+                ctx.broken('%s: no reader probe for `%s` (needed to pair the writer of `%s`)' % (R2, rty, ty))
             continue
         jobs.append((ty, rty, w, r))
     for ty, rty, (wf, W, wp), (rf, Rr, rp) in jobs:
@@ -1855,6 +2141,8 @@ def check_signatures(ctx, tu):
     for ty, (wf, W, wp) in sorted(writers.items()):
         c = calcs.get(ty)
         if c is None:
+            if unshaped:
+                continue
             ctx.broken('%s: no WriteSizeCalculator probe for `%s`' % (R5, ty))
             continue
         cf, C, cp = c
